@@ -52,7 +52,7 @@ func Load(dir string, pattern string, overlay map[string][]byte, opts *Options) 
 	if opts.MaxGoroutines == 0 {
 		opts.MaxGoroutines = 6
 	}
-	e := &Engine{Prog: prog, Pkg: spkgs[0], Sizes: types.SizesFor("gc", "amd64"), Opts: opts}
+	e := &Engine{Dir: dir, Prog: prog, Pkg: spkgs[0], Sizes: types.SizesFor("gc", "amd64"), Opts: opts}
 	return e, nil
 }
 
